@@ -1,5 +1,5 @@
 """C20 — a name used in a script compiles to the id its target has in the output file (Mode G)."""
-import json, os, struct, subprocess
+import json, os, struct, subprocess, time
 from concurrent.futures import ThreadPoolExecutor
 from . import lib, binlayout as bl
 
@@ -14,7 +14,7 @@ MANIFEST = dict(
 # bounds per tier: family -> (MAXN, MAXE, NAMES, NUMS)
 BOUNDS = {
     "quick": {
-        "anm_sprites": (3, 2, "canon", 2), "anm_scripts": (3, 2, "canon", 3), "msg": (3, 1, "canon", 2),
+        "anm_sprites": (3, 2, "canon", 2), "anm_scripts": (3, 2, "canon", 3), "msg": (3, 1, "canon", 1),
         "ecl_subs": (4, 1, "canon", 2), "timelines": (4, 1, "canon", 2), "std": (3, 1, "canon", 2),
     },
     "thorough": {
@@ -22,15 +22,16 @@ BOUNDS = {
         "ecl_subs": (4, 1, "all", 2), "timelines": (4, 1, "canon", 2), "std": (4, 1, "canon", 2),
     },
 }
-# games each family is compiled for: family -> tier -> [game]
+# games each family is compiled for: family -> tier -> [(game, stride)]; stride k: every k-th layout only
 GAMES = {
-    "anm_sprites": {"quick": ["12", "06"], "thorough": ["12", "06", "08", "16"]},
-    "anm_scripts": {"quick": ["12"], "thorough": ["12", "10", "16"]},
-    "msg": {"quick": ["06", "09"], "thorough": ["06", "08", "09", "12"]},
-    "ecl_subs": {"quick": ["06", "07", "08"], "thorough": ["06", "07", "08", "09"]},
-    "timelines": {"quick": ["07", "08"], "thorough": ["07", "08", "09"]},
-    "std": {"quick": ["06", "12"], "thorough": ["06", "08", "12"]},
+    "anm_sprites": {"quick": [("12", 1), ("06", 4)], "thorough": [("12", 1), ("06", 1), ("08", 2), ("16", 2)]},
+    "anm_scripts": {"quick": [("12", 1)], "thorough": [("12", 1), ("10", 2), ("16", 2)]},
+    "msg": {"quick": [("06", 1), ("09", 3)], "thorough": [("06", 1), ("08", 2), ("09", 1), ("12", 2)]},
+    "ecl_subs": {"quick": [("06", 1), ("07", 1), ("08", 1)], "thorough": [("06", 1), ("07", 1), ("08", 1), ("09", 1)]},
+    "timelines": {"quick": [("07", 1), ("08", 1)], "thorough": [("07", 1), ("08", 1), ("09", 1)]},
+    "std": {"quick": [("06", 1), ("12", 1)], "thorough": [("06", 1), ("08", 1), ("12", 1)]},
 }
+CLI_CROSSCHECKS = {"quick": 150, "thorough": 1500}
 FAMILIES = ["anm_sprites", "anm_scripts", "msg", "ecl_subs", "timelines", "std"]
 CMD = {"anm_sprites": "truanm", "anm_scripts": "truanm", "msg": "trumsg", "ecl_subs": "truecl", "timelines": "truecl",
        "std": "trustd"}
@@ -225,23 +226,44 @@ RENDER = {"anm_sprites": render_anm_sprites, "anm_scripts": render_anm_scripts, 
           "ecl_subs": render_ecl_subs, "timelines": render_timelines, "std": render_std}
 
 
-# ------------------------------------------------------------------ driving the real CLI
-def compile_job(job):
-    """job: dict(idx, cmd, game, src, dir) -> (rc, stderr, bytes or None)"""
-    base = os.path.join(job["dir"], "j%d" % job["idx"])
-    spec, out = base + ".spec", base + ".bin"
-    with open(spec, "w") as f:
-        f.write(job["src"])
+# ------------------------------------------------------------------ driving the real code
+def cli_compile(job, env):
+    """the real CLI binary -> (rc, stderr, bytes or None)"""
+    spec, out = job["spec"], job["out"] + ".cli"
     p = subprocess.run([lib.TRUTH_CORE, job["cmd"], "compile", spec, "-g", job["game"], "-o", out],
-                       stdout=subprocess.PIPE, stderr=subprocess.PIPE, env=job["env"], timeout=120)
+                       stdout=subprocess.PIPE, stderr=subprocess.PIPE, env=env, timeout=120)
     data = None
     if os.path.exists(out):
         with open(out, "rb") as f:
             data = f.read()
         os.unlink(out)
-    if not job.get("keep"):
-        os.unlink(spec)
     return p.returncode, p.stderr.decode("utf-8", "replace"), data
+
+
+def batch_compile(jobs, wd, shards=8):
+    """in-process batch driver (harness/src/bin/c20.rs: the steps of cli_def::*_compile::run through the public
+    API), sharded over processes -> list of (rc, stderr, bytes or None) in job order"""
+    for j in jobs:
+        j["spec"] = os.path.join(wd, "j%d.spec" % j["idx"])
+        j["out"] = os.path.join(wd, "j%d.bin" % j["idx"])
+        with open(j["spec"], "w") as f:
+            f.write(j["src"])
+    parts = [jobs[k::shards] for k in range(shards)]
+    parts = [p for p in parts if p]
+
+    def one(k):
+        path = os.path.join(wd, "jobs_%d.ndjson" % k)
+        lib.write_ndjson(path, [dict(idx=j["idx"], cmd=j["cmd"], game=j["game"], spec=j["spec"], out=j["out"]) for j in parts[k]])
+        p = lib.vh(["c20", path], timeout=3000)
+        return [json.loads(l) for l in p.stdout.splitlines()]
+    res = {}
+    with ThreadPoolExecutor(max_workers=len(parts) or 1) as ex:
+        for rows in ex.map(one, range(len(parts))):
+            for r in rows:
+                res[r["idx"]] = (r["rc"], r["stderr"], bytes.fromhex(r["hex"]) if r["hex"] is not None else None)
+    if len(res) != len(jobs):
+        raise lib.ToolError("batch driver lost jobs")
+    return [res[j["idx"]] for j in jobs]
 
 
 # ------------------------------------------------------------------ observation (layout readers) + comparison
@@ -470,27 +492,43 @@ def generate(chk, families, tier, wd):
 def run(chk, replay=None):
     tier = chk.tier
     wd = lib.workdir("c20")
-    families = FAMILIES
+    families = [f for f in FAMILIES if f in os.environ.get("VERIF_C20_FAMILIES", ",".join(FAMILIES)).split(",")]   # development aid
     only = None
     if replay:
         rc = json.load(open(replay))["case"]
         families = [rc["case"]["fam"]]
         only = (json.dumps(rc["case"]["lay"], sort_keys=True), rc["game"])
         tier = rc.get("tier", tier)
+    t0 = time.time()
     cases = generate(chk, families, tier, wd)
+    chk.set("seconds_tlc", round(time.time() - t0, 1))
     env = lib.clean_env()
     jobs = []
     for fam in families:
-        for case in cases[fam]:
-            for game in GAMES[fam][tier]:
+        for ci, case in enumerate(cases[fam]):
+            for game, stride in GAMES[fam][tier]:
+                if ci % stride != 0 and not only:
+                    continue
                 if only and only != (json.dumps(case["lay"], sort_keys=True), game):
                     continue
                 src, aux = RENDER[fam](case, game)
-                jobs.append(dict(idx=len(jobs), cmd=CMD[fam], game=game, src=src, dir=wd, env=env, case=case, aux=aux, fam=fam))
+                jobs.append(dict(idx=len(jobs), cmd=CMD[fam], game=game, src=src, case=case, aux=aux, fam=fam))
     if replay and not jobs:
         raise lib.ToolError("the replayed layout is not generated any more")
+    t0 = time.time()
+    results = batch_compile(jobs, wd)
+    chk.set("seconds_compile", round(time.time() - t0, 1))
+    # the in-process driver must be indistinguishable from the real CLI binary: re-run a stride through the CLI
+    stride = 1 if replay else max(1, len(jobs) // CLI_CROSSCHECKS[tier])
+    picked = jobs[::stride]
     with ThreadPoolExecutor(max_workers=8) as ex:
-        results = list(ex.map(compile_job, jobs))
+        cli = list(ex.map(lambda j: cli_compile(j, env), picked))
+    for j, (rc, stderr, data) in zip(picked, cli):
+        brc, bstderr, bdata = results[j["idx"]]
+        chk.add("cli_crosschecked")
+        if (rc, data) != (brc, bdata):
+            raise lib.ToolError("the batch driver and the real CLI disagree on\n%s\nCLI rc=%s %s\nbatch rc=%s %s" % (
+                j["src"], rc, stderr[:300], brc, bstderr[:300]))
     n_ok = n_err = n_dupok = 0
     for job, (rc, stderr, data) in zip(jobs, results):
         case, fam, game = job["case"], job["fam"], job["game"]
